@@ -4,9 +4,9 @@
 EXTENDS Crc7
 VARIABLES c1, c2, c12
 Basis == {0, 1, 2, 4, 8, 16, 32, 64, 128, 255}
-LInit == c1 = 0 /\ c2 = 0 /\ c12 = 0
+LInit == c1 = 0 /\ c2 = 0 /\ c12 = 0 /\ ct = 0 /\ cb = 0
 LNext == \E b1 \in 0..255 : \E b2 \in Basis :
-            c1' = T(b1 ^^ c1) /\ c2' = T(b2 ^^ c2) /\ c12' = T((b1 ^^ b2) ^^ c12)
-LSpec == LInit /\ [][LNext]_<<c1, c2, c12>>
+            c1' = T(b1 ^^ c1) /\ c2' = T(b2 ^^ c2) /\ c12' = T((b1 ^^ b2) ^^ c12) /\ UNCHANGED <<ct, cb>>
+LSpec == LInit /\ [][LNext]_<<c1, c2, c12, ct, cb>>
 Linear == c12 = c1 ^^ c2
 =============================================================================
